@@ -87,6 +87,21 @@ def _impl(case):
         # the same diagram file evaluated in the other mode first must not influence the result
         run(p.path("again.puml"), "qual", not case["only"])
         out.append(("AGAIN", run(p.path("again.puml"), "qual", case["only"])))
+        # one rule object configured, applied, re-configured and applied again: the second application must behave like a
+        # fresh object (with_base_module(p) = every component written as p.name, whatever happened to the object before)
+        r = DiagramRule(should_only_rule=case["only"]).from_file(p.path("bare.puml")).with_base_module("zz_other")
+        try:
+            r.assert_applies(g)
+        except Exception:  # noqa: BLE001
+            pass
+        r = r.with_base_module(case["base"])
+        try:
+            r.assert_applies(g)
+            out.append(("REUSE", "PASS"))
+        except AssertionError as e:
+            out.append(("REUSE", "FAIL:" + ";".join(parse_message(str(e)))))
+        except Exception as e:  # noqa: BLE001
+            out.append(("REUSE", "ERR:" + err_kind(e)))
         for which in ("qual", "bare"):
             r = DiagramRule(should_only_rule=case["only"]).from_file(p.path(which + ".puml"))
             r = r.base_module_included_in_module_names() if which == "qual" else r.with_base_module(case["base"])
@@ -112,8 +127,9 @@ def line_for(case):
 def judge(ctx, stream, cases):
     impl = pmap(_impl, cases, ctx.jobs, chunk=100)
     ans = run_driver([line_for(c) for c in cases])
-    for c, (again, iq, ib), a in zip(cases, impl, ans):
+    for c, (again, reuse, iq, ib), a in zip(cases, impl, ans):
         again = again[1]
+        reuse = reuse[1]
         a = parse_answer(a)
         stream.evaluations += 1
         i = iq if c["qualified"] else ib
@@ -135,6 +151,8 @@ def judge(ctx, stream, cases):
             bad = "with_base_module(p) behaves differently from writing every component as p.name"
         elif again != iq:
             bad = f"evaluating the same diagram file in the other mode first changes the outcome: {again} vs {iq}"
+        elif reuse != ib:
+            bad = f"a DiagramRule object that was applied with another base module before behaves differently from a fresh one: {reuse} vs {ib}"
         if bad:
             ctx.violations.append({"kind": "property-violation", "what": bad, "line": line_for(c), "impl_qualified": iq, "impl_with_base_module": ib,
                                    "model": m, "spec": s, "diagram": _texts(c)[1 if not c["qualified"] else 1]})
